@@ -209,8 +209,10 @@ func gen(r *hx.Rand, tier string) []json.RawMessage {
 	for _, k := range []string{"wb", "wtwb", "wbdram"} { // directed: filtered flush of several dirty lines
 		out = append(out, hx.J(libIn{Kind: "lib", Cfg: asm.FlushConfig(r, k, r.Range(4, 8))}))
 	}
-	for _, k := range []string{"ideal", "wb", "banked"} { // directed: contended connection
-		out = append(out, hx.J(libIn{Kind: "lib", Cfg: asm.ContendedConfig(r, k, nops)}))
+	for rep := 0; rep < 3; rep++ { // directed: contended connection (several draws per kind)
+		for _, k := range []string{"ideal", "wb", "banked", "wt"} {
+			out = append(out, hx.J(libIn{Kind: "lib", Cfg: asm.ContendedConfig(r, k, nops+4*rep)}))
+		}
 	}
 	for i := 0; i < nLib; i++ {
 		out = append(out, hx.J(libIn{Kind: "lib", Cfg: asm.GenConfig(r, asm.Kinds[i%len(asm.Kinds)], nops)}))
